@@ -25,7 +25,7 @@ def parseTable (s : String) (stream : Bytes) : Option (List (Bytes × Char)) :=
       | [o, l, v] =>
         match num? o, num? l, v.toList with
         | some o, some l, [c] =>
-          if "epkunvABC".toList.contains c && o + l ≤ stream.length then
+          if "epkunvABCr".toList.contains c && o + l ≤ stream.length then
             some ((stream.drop o).take l, c)
           else none
         | _, _, _ => none
@@ -42,6 +42,7 @@ def bodyOf (tbl : List (Bytes × Char)) (f : Bytes) : Outcome WireMsg :=
     else if c == 'A' then .ok (.open true true)
     else if c == 'B' then .ok (.open false true)
     else if c == 'C' then .ok (.open true false)
+    else if c == 'r' then .ok .routeRefresh
     else if c == 'p' then .panic
     else .err
   | none => .err
